@@ -120,6 +120,15 @@ def register(engine, only_last=None):
         c = ctx.cell(rec)
         sid = concrete_str(c.items['section'])
         ctx.ghost_env['last'] = VStr(sid, False)
+        if 'metadata' in c.items:
+            from pyvc.models import VJson, F_JsonIsDict
+            md = c.items['metadata']
+            if isinstance(md, VJson):
+                ctx.oblige('yield.metadata_is_object', F_JsonIsDict(md.h),
+                           kind='post')
+            else:
+                ctx.oblige('yield.metadata_is_object', z3.BoolVal(False),
+                           kind='post')
         if sid in SP.CONTAINERS:
             L = SP.CONTAINERS[sid]
             effc = ctx.cell(ctx.ghost_env['eff'])
